@@ -61,12 +61,12 @@ CLAIMS = {
    text="Each-class sweep plus seeded random combinations (511 quick / 4000+ thorough of a 3.5 M class product) over method, Accept, Sec-Fetch headers, Referer, status, Content-Type, Content-Disposition, body shape (position/number/case of <head>, relative to the 1024-byte first read), backend write segmentation and banner/shim switches; the harness classifies what came out (same / script inserted once after the first <head> / banner frame / other, end-to-end headers unchanged, frame embeds URL + no-store + sameorigin) and the TLA+ operator InjectOK decides whether that alteration is allowed for the case.",
    note="Trusted: TLC, the harness' classification of the observed body (byte comparison against the original and against the original with ShimBody's own script spliced in). Content-Types that merely mention html are not judged.",
    design="6 C14"),
- "C15": dict(engine="TcpBridge", technique="TLA+ spec TcpBridge (per-direction message queue, bufferedMsg reassembly, Integrity prefix invariant) checked by TLC + class combinations exported by TLC run through the real tcp-bridge-frontend / tcp-bridge-backend binaries with harness TCP peers + TLC trace validation (TcpBridgeTrace)",
+ "C15": dict(engine="TcpBridge", technique="TLA+ spec TcpBridge (per-direction message queue, bufferedMsg reassembly, Integrity prefix invariant) checked by TLC + class combinations exported by TLC run through the real tcp-bridge-frontend / tcp-bridge-backend binaries with harness TCP peers + TLC-checked refinement TcpBridge => TcpBridgeObs + TLC trace validation against TcpBridgeObs (TcpBridgeTrace)",
    text="TLC checks that what the far peer reads is always a prefix of what was written for every segmentation of writes and reads in the bounded model; on the real binaries every read at either end is compared with the expected stream position (all 256 byte values, write segments of 1 B..64 KB, read buffers of 1 B..64 KB, both directions at once, 4/16 concurrent connections with 256 KB / 8 MB each way) and the byte counts must satisfy the trace spec (never more than written, complete where nobody closed); plain HTTP GET/POST to the bridge backend must reach the backend port unchanged.",
    note="Trusted: TLC, harness TCP peers (content comparison per read). Ports are taken with a free-port probe.",
    design="6 C15"),
- "C16": dict(engine="TcpBridge", technique="TLA+ spec TcpBridge (close handling with the WaitBoth deviation; liveness ClosePropagates) checked by TLC + close-order scenarios on the real bridge binaries + TLC trace validation (TcpBridgeTrace)",
-   text="TLC proves ClosePropagates (a close reaches the other peer after all data sent before it) for the repaired design and refutes it under WaitBoth; on the real binaries who closes first x data in flight in either direction x segmentations are executed, the first closer half-closes gracefully, and the trace spec requires the other peer to observe end-of-stream (within 10 s) only after having received everything the closing peer had sent, and the TCP server to hold no bridged connection afterwards.",
+ "C16": dict(engine="TcpBridge", technique="TLA+ spec TcpBridge (two bridges, CloseWrite marker, release when both loops end; liveness ClosePropagates/AllReleased; deviation Marker=FALSE = code before the fix) checked by TLC, TLC-checked refinement TcpBridge => TcpBridgeObs + close-order scenarios on the real bridge binaries + TLC trace validation against TcpBridgeObs (TcpBridgeTrace)",
+   text="TLC proves ClosePropagates (a close reaches the other peer after all data sent before it) for the current design (in-band CloseWrite marker, half-close, release when both copy loops have ended) and refutes it for the code before the fix (Marker=FALSE); TLC also checks that the bridge model refines the observable spec TcpBridgeObs against which the recorded runs are validated; on the real binaries who closes first x data in flight in either direction x segmentations are executed, the first closer half-closes gracefully, and the trace spec requires the other peer to observe end-of-stream (within 10 s) only after having received everything the closing peer had sent, and the TCP server to hold no bridged connection afterwards.",
    note="Trusted: TLC, harness peers. Data still travelling towards a peer that has itself closed is not covered by the property and not judged. 'Bounded time' = 10 s.",
    design="6 C16"),
  "C17": dict(engine="AppProxy", technique="TLA+ spec AppProxy (reference semantics AgentCallOK / AdminCallOK / UserRoutingOK) + all access-control combinations enumerated by TLC run against the real app binary (3 services as processes) with a fake App Engine API + TLC trace validation (AppProxyTrace)",
